@@ -298,3 +298,6 @@ CLAIMS["C19"]["text"] += (" Client side, origin dimension: one ClientPeerIDAuth 
 CLAIMS["C15"]["text"] += (" Histories also contain calls the bus must refuse: Subscribe with a non-pointer or the wildcard at any position of a multi-type list, option errors, Emitter for a non-pointer or the wildcard, and a second Emitter.Close; these race with ordinary traffic and their shape space is additionally enumerated completely. "
     "A refused call creates no subscriber, so it may never be the reason an Emit waits, and every real subscriber keeps receiving each event exactly once and in order.")
 CLAIMS["C15"]["note"] += (" Refused calls are the documented error cases only; nil elements (the bus panics) and lists naming one type twice (accepted by the bus with double delivery; with a retained stateful event and BufSize(0) that call never returns) are not generated: observed, outside the statement's domain.")
+
+CLAIMS["C05"]["text"] += (" Address sets also contain DNS names with several records and /dnsaddr names whose TXT entries carry a /p2p suffix (optionally duplicating a plainly known address). An eighth oracle (no starvation) demands that a caller that ran into its own deadline or the dial timeout was not left with nothing in flight "
+    "during its last two seconds while one of its candidates - never failed anywhere in the case, no cap binding - had never been handed to a transport.")
